@@ -10,7 +10,16 @@ require (
 
 require (
 	github.com/klauspost/compress v1.18.4
+	google.golang.org/grpc v1.79.1
 	modernc.org/b/v2 v2.1.10
+)
+
+require (
+	golang.org/x/net v0.48.0 // indirect
+	golang.org/x/sys v0.39.0 // indirect
+	golang.org/x/text v0.32.0 // indirect
+	google.golang.org/genproto/googleapis/rpc v0.0.0-20251202230838-ff82c1b0f217 // indirect
+	google.golang.org/protobuf v1.36.11 // indirect
 )
 
 replace (
